@@ -57,11 +57,17 @@ def build_spec(p: bytes, ncr=None):
     """`ncr` is the payload used in positions whose line structure is NOT data shape: text that
     the server collapses to one line (HTML titles, mail subjects), however it is spelled."""
     ncr = p if ncr is None else ncr
+    flatp = p.replace(b"\n", b"").replace(b"\r", b"")
+    encp = quote(p, safe="").encode()
     """One world with the payload in every content-derived echo position."""
     spec = {
         "title": {"page.html": b"<html><head><title>" + ncr + b"</title></head><body>x</body></html>\n",
                   # the same payload spelled as numeric character references
-                  "ncr.html": b"<html><head><title>T " + b"".join(b"&#%d;" % c for c in ncr) + b" end</title></head><body>x</body></html>\n"},
+                  "ncr.html": b"<html><head><title>T " + b"".join(b"&#%d;" % c for c in ncr) + b" end</title></head><body>x</body></html>\n",
+                  # a second title element that is never closed (browsers ignore it), raw and as character references; hexadecimal references
+                  "two.html": b"<html><head><title>first</title><title>" + b"".join(b"&#%d;" % c for c in ncr) + b"\n</head><body>x</body></html>\n",
+                  "tworaw.html": b"<html><head><TITLE>first</TITLE><title lang=en>" + ncr.replace(b"<", b"&lt;") + b"\n<body>x</body></html>\n",
+                  "hex.html": b"<html><head><title>H" + b"".join(b"&#x%x;" % c for c in ncr) + b"</title></head><body>x</body></html>\n"},
         "mail": {"box.mbox": b"From a@b Thu Jan  1 00:00:01 2004\nFrom: a@b\nSubject: " + ncr.replace(b"\n", b"\n ").replace(b"\r", b" ") + b"\n\nbody\n\n"
                              b"From c@d Thu Jan  1 00:00:02 2004\nSubject: =?utf-8?q?enc_" + qp(ncr) + b"_word?=\n\nb2\n\n"
                              b"From e@f Thu Jan  1 00:00:03 2004\nSubject: plain\n\nb3\n"},
@@ -81,6 +87,13 @@ def build_spec(p: bytes, ncr=None):
                             b"7UrlSearch\tURL:http://u/" + p.replace(b"\n", b"").replace(b"\r", b"") + b"\n",
                "f.txt": b"f\n"},
         "clean": {"c.txt": b"no payload here\n", "sub": {}},
+        # the same hostile links as in "links"/"gm", but after more entries than there are WAP access keys
+        "many": dict([("a%02d.txt" % i, b"x\n") for i in range(13)] + [(".names", b"".join(
+                    b"Name=Z%d\nNumb=%d\nType=%s\nPath=%s\nHost=%s\nPort=%s\n\n" % (i, 50 + i, t, pa, h, po) for i, (t, pa, h, po) in enumerate([
+                        (b"1", b"/x", b"h" + flatp, b"70"), (b"0", b"/p" + flatp, b"+", b"+"), (b"h", b"URL:http://u/" + flatp, b"+", b"+"), (b"7", b"/q" + flatp, b"+", b"+"), (b"7", b"/s", b"h" + flatp, b"70")])))]),
+        "gm13": {"gophermap": b"".join(b"0F%d\tf.txt\n" % i for i in range(13)) + b"0Sel\t/s" + flatp + b"\n1Host\t/x\th" + flatp + b"\t70\nhUrl\tURL:http://u/" + flatp + b"\n7UrlSearch\tURL:http://u/" + flatp + b"\n", "f.txt": b"f\n"},
+        # the payload percent-encoded inside a URL (a decoder applied at the wrong moment brings it back)
+        "encurl": {"gophermap": b"hUrl\tURL:http://u/" + encp + b"\nhUrl2\t/URL:http://u/" + encp + b"\n1Host\t/x" + encp + b"\th.example\t70\n", ".names": b"Name=UrlCase\nType=h\nPath=URL:http://u/" + encp + b"\nHost=+\nPort=+\n"},
         "waptext": {"t.txt": b"line " + p + b" end\n" + p + b"\n"},
         "plus": {"g.txt": b"g\n", "g.txt.abstract": b"+" + p + b"\n+INFO: x\n", "g.txt.keywords": p + b"\n+ADMIN:\n"},
     }
@@ -111,7 +124,13 @@ def requests(p: bytes):
     out.append(("search", "wap", b"GET /wap/clean?searchrequest=" + q + b" HTTP/1.0\r\n\r\n"))
     out.append(("search", "http", b"GET /clean/c.txt?searchrequest=" + q + b" HTTP/1.0\r\n\r\n"))
     # content-derived
-    for d in ("title", "mail/box.mbox", "abs", "links", "gm"):
+    # the payload percent-encoded INSIDE the URL: once more encoded for the URL-based protocols
+    qq = quote(q, safe="").encode()
+    out.append(("url-redirect", "http", b"GET /URL:http://h/" + qq + b" HTTP/1.0\r\n\r\n"))
+    out.append(("url-redirect", "wap", b"GET /wap/URL:http://h/" + qq + b" HTTP/1.0\r\n\r\n"))
+    out.append(("url-redirect", "gopher", b"URL:http://h/" + q + b"\r\n"))
+    out.append(("url-redirect", "gopherp", b"URL:http://h/" + q + b"\t+\r\n"))
+    for d in ("title", "mail/box.mbox", "abs", "links", "gm", "many", "gm13", "encurl"):
         out.append((d, "http", b"GET /" + d.encode() + b" HTTP/1.0\r\n\r\n"))
         out.append((d, "wap", b"GET /wap/" + d.encode() + b" HTTP/1.0\r\n\r\n"))
     out.append(("waptext", "wap", b"GET /wap/waptext/t.txt HTTP/1.0\r\n\r\n"))
@@ -133,6 +152,8 @@ def requests(p: bytes):
     out.append(("title", "gopherp", b"/title/ncr.html\t!\r\n"))
     out.append(("title", "gopherp", b"/title/page.html\t!\r\n"))
     out.append(("title", "gopherp", b"/title/ncr.html\t!\r\n"))
+    for f in (b"two.html", b"tworaw.html", b"hex.html"):
+        out.append(("title", "gopherp", b"/title/" + f + b"\t!\r\n"))
     out.append(("title", "gopher", b"/title\r\n"))
     out.append(("mail/box.mbox", "gopher", b"/mail/box.mbox\r\n"))
     out.append(("mail/box.mbox", "gopherp", b"/mail/box.mbox\t$\r\n"))
